@@ -10,3 +10,5 @@ mod bigint;
 mod ser;
 #[cfg(kani)]
 mod field;
+#[cfg(kani)]
+mod poly;
